@@ -1,4 +1,5 @@
 import KoalaVerif.Model.Surgery
+import KoalaVerif.Lemmas.Walk
 import KoalaVerif.Generated.Kernels
 import Mathlib.Data.List.Basic
 import Mathlib.Data.List.Nodup
@@ -343,5 +344,117 @@ example : NoDangling (core 4 [(0, 1), (1, 2), (2, 0), (2, 3)]) ∧ core 4 [(0, 1
   · intro e he; revert e he; decide
   · decide
 example : (List.range 5).map (newIndex fun v => [1, 3].contains v) = [0, 0, 1, 1, 2] := by decide
+
+/-! ### faces none of whose edges is removed survive (rotation systems with the labels kept; the order-preserving
+    renumbering of the surviving edges is `newIndex_spec`) -/
+
+open Lat in
+/-- the entry after `x` in the cyclic list `l` (what `nextD` reads off a vertex's clockwise list) -/
+def succIn (l : List Nat) (x : Nat) : Nat := l.getD ((l.idxOf x + 1) % l.length) 0
+
+theorem succIn_mid (pre post : List Nat) (x y : Nat) (hx : x ∉ pre) : succIn (pre ++ x :: y :: post) x = y := by
+  unfold succIn
+  have hi : (pre ++ x :: y :: post).idxOf x = pre.length := by
+    rw [List.idxOf_append_of_notMem hx]; simp
+  rw [hi]
+  have hlen : (pre ++ x :: y :: post).length = pre.length + 2 + post.length := by simp; omega
+  rw [hlen, Nat.mod_eq_of_lt (by omega)]
+  simp [List.getD_eq_getElem?_getD, List.getElem?_append_right]
+
+theorem succIn_last (pre : List Nat) (x y : Nat) (hxy : x ≠ y) (hx : x ∉ pre) : succIn (y :: pre ++ [x]) x = y := by
+  unfold succIn
+  have hi : (y :: pre ++ [x]).idxOf x = pre.length + 1 := by
+    rw [List.cons_append, List.idxOf_cons_ne _ (Ne.symm hxy), List.idxOf_append_of_notMem hx]; simp
+  rw [hi]
+  have hlen : (y :: pre ++ [x]).length = pre.length + 2 := by simp
+  rw [hlen]
+  simp
+
+theorem succIn_single (x : Nat) : succIn [x] x = x := by simp [succIn]
+
+/-- **cyclic successor survives filtering**: in a duplicate-free cyclic list, if `x` and the entry after `x` are both
+    kept, the entry after `x` in the filtered list is the same -/
+theorem succIn_filter (keep : Nat → Bool) (l : List Nat) (hnd : l.Nodup) (x : Nat) (hx : x ∈ l) (hkx : keep x = true)
+    (hks : keep (succIn l x) = true) : succIn (l.filter keep) x = succIn l x := by
+  obtain ⟨pre, post, rfl⟩ := List.append_of_mem hx
+  have hnd' := hnd
+  rw [List.nodup_append] at hnd
+  obtain ⟨_, hnd2, hdisj⟩ := hnd
+  have hxpre : x ∉ pre := fun h => hdisj x h x (by simp) rfl
+  have hxpost : x ∉ post := (List.nodup_cons.mp hnd2).1
+  have hxfpre : x ∉ pre.filter keep := fun h => hxpre (List.mem_filter.mp h).1
+  cases post with
+  | cons y post' =>
+    rw [succIn_mid pre post' x y hxpre] at hks ⊢
+    have : (pre ++ x :: y :: post').filter keep = pre.filter keep ++ x :: y :: post'.filter keep := by
+      simp [List.filter_append, List.filter_cons, hkx, hks]
+    rw [this, succIn_mid _ _ x y hxfpre]
+  | nil =>
+    cases pre with
+    | nil => simp [List.filter_cons, hkx, succIn_single]
+    | cons y pre' =>
+      have hxy : x ≠ y := fun h => hxpre (by simp [h])
+      have hxpre' : x ∉ pre' := fun h => hxpre (by simp [h])
+      rw [show y :: pre' ++ [x] = y :: pre' ++ [x] from rfl, succIn_last pre' x y hxy hxpre'] at hks ⊢
+      have : (y :: pre' ++ [x]).filter keep = y :: pre'.filter keep ++ [x] := by
+        simp [List.filter_append, List.filter_cons, hkx, hks]
+      rw [this, succIn_last _ x y hxy (fun h => hxpre' (List.mem_filter.mp h).1)]
+
+/-- `nextD` in terms of the cyclic successor -/
+theorem nextD_eq_succIn (L : Lat) (R : Rot) (d : Dart) :
+    nextD L R d = (succIn (R (L.head d)) d.1, decide ((L.endsOf (succIn (R (L.head d)) d.1)).1 ≠ L.head d)) := rfl
+
+/-- **one step survives edge deletion**: if the edge of `d` and the edge of the next dart are kept, then the next dart
+    computed from the thinned-out clockwise lists is the same -/
+theorem nextD_filter (L : Lat) (R : Rot) (keep : Nat → Bool) (hnd : ∀ v, (R v).Nodup) (d : Dart)
+    (hmem : d.1 ∈ R (L.head d)) (hk : keep d.1 = true) (hk' : keep (nextD L R d).1 = true) :
+    nextD L (fun v => (R v).filter keep) d = nextD L R d := by
+  rw [nextD_eq_succIn, nextD_eq_succIn]
+  have := succIn_filter keep (R (L.head d)) (hnd _) d.1 hmem hk (by rw [nextD_eq_succIn] at hk'; exact hk')
+  simp only [this]
+
+/-- **a face none of whose edges is removed survives**: if every dart on the walk from `d` keeps its edge, the walk
+    from `d` through the thinned-out lists visits the same darts, step for step -/
+theorem walk_survives (L : Lat) (R : Rot) (keep : Nat → Bool) (hwf : WF L R) (d : Dart) (hd : d.1 < L.E)
+    (hk : ∀ k, keep ((nextD L R)^[k] d).1 = true) :
+    ∀ k, (nextD L (fun v => (R v).filter keep))^[k] d = (nextD L R)^[k] d := by
+  intro k
+  induction k with
+  | zero => rfl
+  | succ k ih =>
+    rw [Function.iterate_succ_apply', Function.iterate_succ_apply', ih]
+    have hv : ((nextD L R)^[k] d).1 < L.E := _root_.iter_valid L R hwf hd k
+    apply nextD_filter L R keep hwf.nodup _ (head_mem hwf hv) (hk k)
+    have := hk (k + 1)
+    rwa [Function.iterate_succ_apply'] at this
+
+theorem traceLoop_congr {α : Type} [DecidableEq α] (f g : α → α) (start : α) :
+    ∀ (fuel : Nat) (cur : α) (acc : List α), (∀ k, g^[k] cur = f^[k] cur) →
+      traceLoop g start fuel cur acc = traceLoop f start fuel cur acc := by
+  intro fuel
+  induction fuel with
+  | zero => intros; rfl
+  | succ fuel ih =>
+    intro cur acc hfg
+    have h1 : g cur = f cur := hfg 1
+    simp only [traceLoop, h1]
+    split
+    · rfl
+    · split
+      · rfl
+      · apply ih
+        intro k
+        have := hfg (k + 1)
+        rw [Function.iterate_succ_apply, Function.iterate_succ_apply, h1] at this
+        exact this
+
+/-- **C12 (untouched faces survive)**: if no dart of the face traced from `d` loses its edge, tracing from `d` in the
+    thinned-out rotation system returns the very same face -/
+theorem face_survives (L : Lat) (R : Rot) (keep : Nat → Bool) (hwf : WF L R) (d : Dart) (hd : d.1 < L.E)
+    (hk : ∀ y ∈ walkFrom L R d, keep y.1 = true) :
+    walkFrom L (fun v => (R v).filter keep) d = walkFrom L R d := by
+  have hk' : ∀ k, keep ((nextD L R)^[k] d).1 = true := fun k => hk _ ((_root_.mem_walkFrom L R hwf hd _).mpr ⟨k, rfl⟩)
+  unfold walkFrom trace
+  rw [traceLoop_congr (nextD L R) (nextD L (fun v => (R v).filter keep)) d _ d [d] (walk_survives L R keep hwf d hd hk')]
 
 end C12
